@@ -1,7 +1,7 @@
 (* Properties/C04.v -- Per-connection exchange integrity: one handler run and one response per request.
    Statements quantify over EVERY request reader, response writer and handler (Section variables),
    every connection state and every number of loop iterations. *)
-From SV Require Import Base.Bytes Base.IO Model.Conn Spec.ConnSpec Proofs.ConnP Model.Server Proofs.ServerP.
+From SV Require Import Base.Bytes Base.IO Model.Conn Spec.ConnSpec Proofs.ConnP Model.Server Proofs.ServerP Proofs.ExchangeP.
 From SV Require Import Generated.SourceParams Tie.ConnTie.
 From SV Require Import Model.Response Model.ConnInst Proofs.ConnInstP.
 
@@ -76,6 +76,35 @@ Theorem c04_small_body_exact :
       [mk_inv _ _ p (BV_Mem (firstn (N.to_nat L) (cin_avail (c_in c1))))
               (handler p (BV_Mem (firstn (N.to_nat L) (cin_avail (c_in c1)))))].
 Proof. intros. eapply small_body_in_memory; eauto. Qed.
+(* C04.7  The whole connection: the loop IS the sequence of exchanges -- handle_http_conn_once applied to the
+   successive requests, in order, cut at the first closing event, at a revoked permit or at a connection that is
+   not ready (unread body).  The invocation log and the temp-file log of the connection are the concatenations of
+   the exchanges' logs (so the handler runs for request i+1 only after everything of request i, and never after a
+   closing event); the final connection state is that of the last exchange plus, after an error other than a
+   disconnect, the ONE error response of the loop's error path and the shutdown. *)
+Notation exch := (exchanges payload resp read_req resp_code write_out resp_continue fix16 handler small_body_len cache_dir revoked).
+Theorem c04_loop_is_exchange_sequence :
+  forall fuel k c log files,
+    let out := loop fuel k c log files in
+    let xs := exch fuel k c in
+    lo_log _ _ out = log ++ concat (map (oo_log _ _) xs) /\
+    lo_files _ _ out = files ++ concat (map (oo_files _ _) xs) /\
+    (lo_out_of_fuel _ _ out = false ->
+     lo_conn _ _ out = after_last payload resp resp_code write_out error_response c xs).
+Proof. intros. apply loop_is_exchanges. Qed.
+
+(* C04.8  Responses appear in request order and nothing already sent is ever changed: the wire after every
+   exchange extends the wire before the connection's first exchange (hence, exchange by exchange, the wire after
+   exchange i extends the wire after exchange i-1). *)
+Theorem c04_responses_in_request_order :
+  forall n k c, Forall (fun o => extends (c_wire c) (c_wire (oo_conn _ _ o))) (exch n k c).
+Proof. intros. apply exchanges_wire_ordered. Qed.
+
+(* C04.9  Closed means closed: only the LAST exchange of a connection can have ended with an error, a drop, a
+   4xx/5xx answer or an unread body; every earlier one returned Ok(()). *)
+Theorem c04_only_the_last_exchange_closes :
+  forall n k c xs o, exch n k c = xs ++ [o] -> Forall (fun x => oo_res _ _ x = None) xs.
+Proof. intros n k c xs o H. eapply exchanges_only_last_closes. exact H. Qed.
 End C04.
 
 (* the code before the repair of D5 ran the handler twice on a direct answer *)
@@ -116,6 +145,9 @@ Theorem c04_translation_complete : src_problems_conn_buf = 0%nat.
 Proof. exact conn_buf_translated. Qed.
 
 Print Assumptions c04_handler_runs.
+Print Assumptions c04_loop_is_exchange_sequence.
+Print Assumptions c04_responses_in_request_order.
+Print Assumptions c04_only_the_last_exchange_closes.
 Print Assumptions c04_instance_continue_code.
 Print Assumptions c04_instance_reader_total.
 Print Assumptions c04_instance_reader_progress.
